@@ -282,6 +282,23 @@ example : ∃ (R : Spec.Rel) (str : String) (st' : LN.St), PR.prQ .MYSQL nested 
   obtain ⟨R, hR⟩ := flowIsOk_sound (r := Flow.flowQ C16.cat2 (LN.fuelFor nested) [] nested) (by decide +kernel)
   exact ⟨R, C16.lineage_of_text .MYSQL nested (by decide) (leafQ_of_B _ _ (by decide +kernel))
     (C01.dialectPre_id _ (by decide) (by decide) _) C16.cat2 (C16.hyg_sound _ (by decide +kernel)) R hR []⟩
+/-- set operations and wildcards (as far as the specification `flowQ` covers them): `SELECT x.a AS k, x.b FROM t x UNION ALL SELECT y.d, y.a
+FROM u y` and `SELECT * FROM t1, t2` on their printed texts -/
+theorem lineage_text_instance (q : Query) (hq : FragQ .MYSQL q = true) (hl : leafQB .MYSQL q = true) (hh : C16.hyg q = true)
+    (hf : flowIsOk (Flow.flowQ C16.cat2 (LN.fuelFor q) [] q) = true) :
+    ∃ (R : Spec.Rel) (str : String) (st' : LN.St), Flow.flowQ C16.cat2 (LN.fuelFor q) [] q = .ok R ∧ PR.prQ .MYSQL q = .ok str ∧
+      Drv.lineageCall C16.cat2 .MYSQL str.toList [] =
+        ("OK " ++ Drv.showVal (.list ((C16.number R 1).map fun (c, s) => .tuple [c.toVal, .list (s.map LN.SrcCol.toVal)])), some st') := by
+  obtain ⟨R, hR⟩ := flowIsOk_sound hf
+  obtain ⟨str, st', a, _, _, b⟩ := C16.lineage_of_text .MYSQL q hq (leafQ_of_B _ _ hl) (C01.dialectPre_id _ (by decide) (by decide) _)
+    C16.cat2 (C16.hyg_sound _ hh) R hR []
+  exact ⟨R, str, st', hR, a, b⟩
+set_option maxRecDepth 100000 in
+example := lineage_text_instance C16.unionOK (by decide) (by decide +kernel) (by decide +kernel) (by decide +kernel)
+set_option maxRecDepth 100000 in
+example := lineage_text_instance C16.starAll (by decide) (by decide +kernel) (by decide +kernel) (by decide +kernel)
+#guard (Drv.lineageCall C16.cat2 .MYSQL (prQL .MYSQL C16.unionOK) []).1 ==
+  "OK L[T[StandardColumn{column_idx=1,column_name=\"k\"},L[SourceColumn{schema_name=None,table_name=\"t\",column_name=\"a\"},SourceColumn{schema_name=None,table_name=\"u\",column_name=\"d\"}]],T[StandardColumn{column_idx=2,column_name=\"b\"},L[SourceColumn{schema_name=None,table_name=\"t\",column_name=\"b\"},SourceColumn{schema_name=None,table_name=\"u\",column_name=\"a\"}]]]"
 set_option maxRecDepth 100000 in
 example : ∃ (str : String), PR.prQ .MYSQL q1 = .ok str ∧ Drv.firstStmt .MYSQL str.toList = .ok (.select q1) ∧
     (Drv.firstStmt .MYSQL str.toList >>= AN.currentColsStmt .having) = .ok (specQuery .having q1) ∧
